@@ -510,8 +510,8 @@ def gen_a(rng, kind):
         # the mark, freeing an old revision) copies the un-creation record; a later commit, close, reopen with
         # the SAVED (or a stale / no) index: the counter must still cover that oid
         finish()
-        a = rng.randrange(700, 900)
-        hi = max(known + [a]) + rng.choice([1, 5, 300])
+        a = max(known) + 1                      # the largest oid that stays; the un-created one right above it
+        hi = a + rng.choice([1, 1, 2])
         if hi <= TOP:
             ops += ['store %s' % hex8(a), 'finish', 'storeroot %s' % hex8(a), 'finish', 'store %s' % hex8(a), 'finish',
                     'mark', 'store %s' % hex8(hi), 'finish', 'undolast', 'finish', 'pack mark',
@@ -864,7 +864,7 @@ def run_conn_case(rng, tmp, idx):
                 elif r < 0.26:
                     conn.new_oid()                      # an id taken directly (never stored)
                     steps.append('new_oid')
-                elif r < 0.30:
+                elif r < 0.31:
                     # two imports in ONE transaction, the second from another database (overlapping exported oids)
                     commit1()
                     check('commit')
@@ -895,7 +895,7 @@ def run_conn_case(rng, tmp, idx):
                             elif ra.value.value != 'local-%d' % n or rb.value.value != 'foreign':
                                 bad = bad or '%s: an imported tree reads back as the other one' % kind
                     steps.append('double-import')
-                elif r < 0.32:
+                elif r < 0.36:
                     # the other connection adds and commits in between
                     tm2.begin()
                     o2 = MinPO(n)
@@ -909,14 +909,14 @@ def run_conn_case(rng, tmp, idx):
                     check('conn2-commit')
                     present = present_oids(st)
                     steps.append('conn2')
-                elif r < 0.37 and blobs:
+                elif r < 0.40 and blobs:
                     from ZODB.blob import Blob
                     b = Blob()
                     with b.open('w') as f:
                         f.write(b'blob %d' % n)
                     root['blob%d' % rng.randrange(3)] = b   # the storage's first blob operations happen here
                     steps.append('blob')
-                elif r < 0.45:
+                elif r < 0.48:
                     root['k%d' % rng.randrange(6)] = MinPO(MinPO(n))
                     sp = tm.savepoint()                 # ids issued while a savepoint (TmpStore) is active
                     o = MinPO(n)
@@ -1311,6 +1311,55 @@ def probe_mvccmapping_instances_disjoint():
     return None
 
 
+def probe_double_import(tmp):
+    """directed: two importFile() calls in ONE transaction -- also after a savepoint --, the second file exported
+    from another database whose oids overlap with the first file's: every imported object gets an id of its own
+    and each tree reads back as itself"""
+    import io
+
+    def export_of(value):
+        db = ZODB.DB(MappingStorage())
+        tm = transaction.TransactionManager()
+        c = db.open(tm)
+        c.root()['t'] = MinPO(MinPO(value))
+        tm.commit()
+        f = io.BytesIO()
+        c.exportFile(c.root()['t']._p_oid, f)
+        c.close()
+        db.close()
+        return f.getvalue()
+    fa, fb = export_of('tree-a'), export_of('tree-b')       # same exported oids (1, 2) in both files
+    bad = None
+    for kind in ('mapping', 'file'):
+        for savepoint in (False, True):
+            st = MappingStorage() if kind == 'mapping' else FileStorage(os.path.join(tmp, 'di.fs'), create=True)
+            db = ZODB.DB(st)
+            tm = transaction.TransactionManager()
+            c = db.open(tm)
+            c.root()['x'] = MinPO(0)
+            tm.commit()
+            a = c.importFile(io.BytesIO(fa))
+            if savepoint:
+                tm.savepoint()
+            b = c.importFile(io.BytesIO(fb))
+            c.root()['a'], c.root()['b'] = a, b
+            tm.commit()
+            c.cacheMinimize()
+            ra, rb = c.root()['a'], c.root()['b']
+            ids = [u64(x) for x in (ra._p_oid, ra.value._p_oid, rb._p_oid, rb.value._p_oid)]
+            if len(set(ids)) != 4:
+                bad = ('%s: two imports in one transaction%s (exports of two databases with overlapping oids) gave '
+                       'their objects the same ids %s' % (kind, ' (savepoint in between)' if savepoint else '', ids))
+            elif (ra.value.value, rb.value.value) != ('tree-a', 'tree-b'):
+                bad = '%s: after two imports in one transaction a tree reads back as %r / %r' % (
+                    kind, ra.value.value, rb.value.value)
+            c.close()
+            db.close()
+            if bad:
+                return bad
+    return None
+
+
 def probe_finish_window(tmp):
     """directed: while client A's tpc_finish is on its way into the changes storage, client B calls new_oid()
     and its re-draw proposes the id A is just committing.  It must be either still issued or already stored."""
@@ -1562,6 +1611,11 @@ def main(argv=None):
         ck.case(['probe-mvcc-disjoint'], True, None)
         if bad:
             ck.violation('C20:mvccmapping-instances-not-disjoint', bad, dict(section='D-probes', probe='mvcc-disjoint'))
+        bad = probe_double_import(ck.tmp)
+        ck.count('probe:double-import')
+        ck.case(['probe-double-import'], True, None)
+        if bad:
+            ck.violation('C20:connection-new-oid-collision', bad, dict(section='D-probes', probe='double-import'))
         bad = probe_finish_window(ck.tmp)
         ck.count('D:finish-window-probe')
         ck.case(['D-finish-window'], True, None)
